@@ -864,6 +864,15 @@ func GenResponse(rng *rand.Rand, o GenOpts, reqMethod string) *Spec {
 	if s.Status == 206 {
 		total := len(s.Body) + 10 + rng.Intn(1000)
 		start := rng.Intn(10)
+		// Every second 206 of a compressed representation (decided by the encoded
+		// length, no further PRNG draw) carries what a range request really yields:
+		// the first half of the encoded stream, "bytes 0-k/total" - a part that
+		// cannot be decoded on its own.
+		if !noWire && (s.CodingKind == "gzip" || s.CodingKind == "deflate" || s.CodingKind == "zlib") && len(s.Body) >= 8 && len(s.Body)%2 == 0 {
+			total = len(s.Body)
+			start = 0
+			s.Body = s.Body[:len(s.Body)/2]
+		}
 		end := start + len(s.Body) - 1
 		if len(s.Body) == 0 {
 			end = start
